@@ -655,8 +655,12 @@ theorem step_inv {s : State} (hinv : Inv s) (op : Op) : Inv (step s op).1 := by
   | houseWithdraw o x => exact houseWithdraw_inv hinv o x
   | settle k h r x y => exact settle_inv hinv k h r x y
 
-theorem init_inv (fixed : Bool) (bank : Nat → Int) (hb : ∀ a, 0 ≤ bank a) : Inv (init fixed bank) := by
-  refine ⟨hb, ?_, ?_, ?_, ?_⟩ <;> simp [init]
+theorem initCfg_inv (fixed fixedNeg fixedRet : Bool) (bank : Nat → Int) (hb : ∀ a, 0 ≤ bank a) :
+    Inv (initCfg fixed fixedNeg fixedRet bank) := by
+  refine ⟨hb, ?_, ?_, ?_, ?_⟩ <;> simp [initCfg]
+
+theorem init_inv (fixed : Bool) (bank : Nat → Int) (hb : ∀ a, 0 ≤ bank a) : Inv (init fixed bank) :=
+  initCfg_inv fixed false false bank hb
 
 theorem run_inv {s : State} (hinv : Inv s) (ops : List Op) : Inv (run s ops) := by
   unfold run
